@@ -366,7 +366,7 @@ def theorem_classes(ctx, cases, meta):
 def mechanisms(d: Decorated):
     """Which of the confirmed defect mechanisms are present in this decorated program (exact detectors)."""
     m = {"two_orders": False, "while_break": False, "for_bound": False, "float_mod": False, "returns_input": False,
-         "nested_domain": False, "dup_subgraph_output": False, "param_shadow_if": False}
+         "nested_domain": False, "dup_subgraph_output": False, "param_shadow_if": False, "loop_live_out": False}
     for fp in d.funcs:
         f = d.onnx_function(fp["name"])
         if f is None or not hasattr(f, "to_function_proto"):
@@ -382,6 +382,7 @@ def mechanisms(d: Decorated):
         m["nested_domain"] |= c01_run.nested_domain_not_imported(proto)
         m["dup_subgraph_output"] |= c01_run.subgraph_lists_value_twice(proto)
         m["for_bound"] |= c01_run.for_bound_not_live(d.source, fp["name"], c01_gen.analysis_globals(d.prog))
+        m["loop_live_out"] |= c01_run.loop_live_out_dropped(d.source, fp["name"], c01_gen.analysis_globals(d.prog))
         m["float_mod"] |= "float-mod-tensor" in fp.get("features", [])
         m["param_shadow_if"] |= c01_run.if_test_parameter_shadows_global(d.source, fp["name"], set(d.prog["globals"]))
     return m
@@ -406,6 +407,8 @@ def classify(mech, which, text):
         return "C01:while-with-trailing-break:loop-condition-dropped"
     if mech["for_bound"]:
         return "C01:for-bound-not-live:stale-loop-bound"
+    if mech.get("loop_live_out") and which in ("model", "function"):
+        return "C01:loop-live-out-not-live-in:value-assigned-in-loop-body-lost"
     return None
 
 
@@ -655,6 +658,46 @@ def loop_else_probe(ctx, wd, worker, stats):
                        "graph": np.asarray(val[0]).tolist() if status == "ok" else str(val)})
 
 
+NESTED_DEF_SRC = c01_gen.HEADER + '''
+@script(default_opset=op)
+def cf_nested_def(x: FLOAT['D0']) -> FLOAT['D0']:
+    def inner(a: FLOAT['D0']) -> BOOL['D0']:
+        return a > 0.0
+    y = x + 1.0
+    return y
+'''
+
+
+def nested_def_probe(ctx, wd, worker, stats):
+    """Outside the generator's grammar: a nested function definition (the construct Scan / SequenceMap bodies are written
+    with) carrying its own return annotation.  The enclosing function's outputs must keep the enclosing function's
+    declared types: eager returns FLOAT, so must the model."""
+    import numpy as np
+    mod, exc = c01_run.load(wd, "c01_nested_def", NESTED_DEF_SRC)
+    ctx.case(("corpus", "cf_nested_def"))
+    if exc is not None:
+        stats["nested_def_refused"] += 1
+        if type(exc).__name__ not in c01_run.DESCRIPTIVE:
+            ctx.violation(f"C01:nested-def:crash:{type(exc).__name__}", f"decorator crashed on a nested function definition: {exc!r}", {"source": NESTED_DEF_SRC})
+        return
+    f = mod.cf_nested_def
+    x = np.array([-1.0, 1.0], dtype=np.float32)
+    try:
+        eager = np.asarray(f(x.copy()))
+        model = f.to_model_proto()
+        status, val = worker.run(model, {"x": x})
+    except Exception as e:  # noqa: BLE001
+        ctx.tie_broken("harness", "nested-def-probe", repr(e))
+        return
+    if status != "ok" or np.asarray(val[0]).dtype != eager.dtype or not np.array_equal(eager, np.asarray(val[0])):
+        ctx.violation("C01:nested-def-return-annotation:overwrites-enclosing-return-types",
+                      "the return annotation of a nested function definition replaces the enclosing function's declared return types: "
+                      "the model's output is declared with the nested function's type and does not run (or returns another type) while eager returns values",
+                      {"source": NESTED_DEF_SRC, "x": x.tolist(), "eager": eager.tolist(), "eager_dtype": str(eager.dtype),
+                       "declared_output_elem_type": int(model.graph.output[0].type.tensor_type.elem_type),
+                       "graph": np.asarray(val[0]).tolist() if status == "ok" else str(val)[:400]})
+
+
 def run(ctx):
     ctx.assume("kernel semantics of the ONNX operators are abstract in the theorems (Section variable); measured on onnxruntime (ORT_DISABLE_ALL) "
                "by the direct oracle for every generated program and input")
@@ -721,6 +764,7 @@ def run(ctx):
         cache.__enter__()
         worker = c01_run.OrtWorker(timeout=20)
         loop_else_probe(ctx, wd, worker, stats)
+        nested_def_probe(ctx, wd, worker, stats)
         for d in decorated:
             if not d.accepted:
                 stats["refused"] += 1
